@@ -36,6 +36,7 @@ def run(ctx):
                 for s, grp in (("obj", ["xy", "rows"]), ("rowsH", ["rowsH"]), ("sparse", ["sparse"]), ("csv", ["csv", "csvH"]),
                                ("arff", ["arff"]), ("sp-text", ["arffS", "libsvm", "manik"]))]
         runs.append(("takes3", {"Takes <- TakesQuick": "Takes <- TakesFull", "XKs <- XKsQuick": "XKs <- XKsAll"}))
+        runs.append(("rows5", {"MaxRows = 3": "MaxRows = 5", "Takes <- TakesQuick": "Takes <- TakesTwo", "Shapes <- ShapesQuick": "Shapes <- ShapesOne"}))
     total = 0
     for name, sub in runs:
         cfg = tracecheck._cfg("Supervised.cfg", sub, ctx.scratch, "sup_%s.cfg" % name)
